@@ -271,6 +271,7 @@ enum Ob {
     Sample(V),
     Forced(V, u32),
     Post(usize, Vec<V>),
+    Note(String),
 }
 
 pub enum Item {
@@ -438,6 +439,7 @@ impl World {
                     k,
                     vs.iter().map(show).collect::<Vec<_>>().join(",")
                 )),
+                Ob::Note(s) => rest.push(s),
             }
         }
         let mut parts: Vec<String> =
@@ -1202,9 +1204,24 @@ impl World {
                 let k = n(1);
                 let cs: Vec<Cell<V>> = w[2..].iter().map(|x| self.cell(x.parse().unwrap())).collect();
                 let log = self.log.clone();
+                let ctx2 = ctx.clone();
                 ctx.post(move || {
                     let vs: Vec<V> = cs.iter().map(|c| c.sample()).collect();
                     log.lock().unwrap().push(Ob::Post(k, vs));
+                    // C14 / C12 probe: a transaction opened from inside a post closure is an outermost transaction; when it
+                    // returns, the work it deferred has run (observable only here, so checked here: silent when it holds)
+                    let ran = Arc::new(std::sync::atomic::AtomicBool::new(false));
+                    {
+                        let ran = ran.clone();
+                        let ctx3 = ctx2.clone();
+                        ctx2.transaction(|| ctx3.post(move || ran.store(true, Ordering::SeqCst)));
+                    }
+                    if !ran.load(Ordering::SeqCst) {
+                        log.lock().unwrap().push(Ob::Note(format!(
+                            "panic ReentrantTransactionLeftDeferredWorkPending {}",
+                            k
+                        )));
+                    }
                 });
             }
             "clone" => {
